@@ -169,3 +169,10 @@ def in_frame(ref, items):
     import z3 as _z3
     alts = [(x.pred(ref) if isinstance(x, RefSet) else ref == x) for x in items]
     return _z3.Or(alts) if alts else _z3.BoolVal(False)
+
+
+class SuperRef:
+    """super() inside a method: attribute look-up continues after `cls` in the MRO of the receiver's class"""
+    def __init__(self, recv, cls):
+        self.recv = recv
+        self.cls = cls
